@@ -31,7 +31,7 @@ def wave_case(mt):
     rec = dict(ref=[], refc='', runs=[], raised=False)
     ds0 = mt['ds'][0]
 
-    def run(cls, d, n, images, reuse=False, strip=False, mode=None, sel=None, seed=0, prop=None, twice=False):
+    def run(cls, d, n, images, reuse=False, strip=False, mode=None, sel=None, seed=0, prop=None, twice=False, first=None):
         w = cls(c, d, sims=n, c_caps=caps, c_reuse=reuse, strip_forks=strip)
         if isinstance(mode, list):          # the selection mode is a per-lane setting
             sc = np.array(w.simctl_int)
@@ -52,6 +52,8 @@ def wave_case(mt):
         w.s[...] = s
         w.s_to_c()
         pre = np.array(w.c).copy()
+        if first is not None:               # history: the first propagation on this object was restricted to a few lanes
+            w.c_prop(sims=first, seed=seed)
         if prop is None:
             w.c_prop(seed=seed)
         else:
@@ -136,11 +138,13 @@ def wave_case(mt):
     if big:
         wide2 = [row + [row[p % lanes] for p in range(big)] for row in inw]
         add('WaveSimCuda with %d lanes' % (lanes + big), lambda: run(WaveSimCuda, d0, lanes + big, wide2), ident + [(p % lanes) + 1 for p in range(big)])
+        add('WaveSimCuda with %d lanes, c_prop(sims=%d) first' % (lanes + big, mt['k']), lambda: run(WaveSimCuda, d0, lanes + big, wide2, first=mt['k']), ident + [(p % lanes) + 1 for p in range(big)])
     perm = mt['perm']
     pin = [[row[perm[p]] for p in range(lanes)] for row in inw]
     add('lanes permuted %s' % perm, lambda: run(mt['cls2'], d0, lanes, pin), [perm[p] + 1 for p in range(lanes)])
     k = mt['k']
     add('c_prop(sims=%d)' % k, lambda: run(mt['cls2'], d0, lanes, inw, prop=k), [p + 1 if p < k else 0 for p in range(lanes)], keepk=k)
+    add('c_prop(sims=%d) then c_prop()' % k, lambda: run(mt['cls2'], d0, lanes, inw, first=k), ident)
     # delay dataset selection: mode 0 (seed selects for all lanes), mode 1 (per lane)
     add('mode 0 seed=%d of %d datasets' % (ds0, len(D)), lambda: run(mt['cls2'], D, lanes, inw, mode=0, seed=ds0), ident)
     if all(x == ds0 for x in mt['ds']):
